@@ -1,3 +1,4 @@
+use super::field_utils::parse_party_identifier;
 use super::swift_utils::{parse_bic, parse_swift_chars};
 use crate::errors::ParseError;
 use crate::traits::SwiftField;
@@ -61,9 +62,12 @@ impl SwiftField for Field58A {
         let mut party_identifier = None;
         let mut bic_line_idx = 0;
 
-        // Check for optional party identifier on first line
-        if !lines.is_empty() && lines[0].starts_with('/') {
-            party_identifier = Some(lines[0][1..].to_string()); // Strip the leading / (format prefix)
+        // Check for optional party identifier on first line ([/1!a][/34x], stored without the
+        // leading slash)
+        if !lines.is_empty()
+            && let Some(party_id) = parse_party_identifier(lines[0])?
+        {
+            party_identifier = Some(party_id);
             bic_line_idx = 1;
         }
 
